@@ -527,6 +527,11 @@ class SSHChannel(Generic[AnyStr], SSHPacketHandler):
                     self._deliver_data(data, datatype)
             except ProtocolError as decode_exc:
                 exc = exc or decode_exc
+            except Exception: # pylint: disable=broad-except
+                # As in _cleanup(), an exception raised by the session
+                # mustn't keep the connection from being cleaned up
+                self.logger.debug1('Uncaught exception in session ignored',
+                                   exc_info=sys.exc_info)
 
         self._cleanup(exc)
 
